@@ -20,6 +20,7 @@ import (
 	"bytes"
 	"crypto"
 	"crypto/x509"
+	"slices"
 
 	"github.com/dadrus/heimdall/internal/heimdall"
 	"github.com/dadrus/heimdall/internal/x/errorchain"
@@ -47,7 +48,10 @@ func buildChain(chain []*x509.Certificate, issuerCandidates []*x509.Certificate)
 	child := chain[len(chain)-1]
 
 	for _, candidate := range issuerCandidates {
-		if child.Equal(candidate) {
+		// a certificate, which is already part of the chain, is not considered again. Otherwise,
+		// certificates issuing each other (e.g. a renewed root certificate having the same subject
+		// and key id as the old one, or cross-signed certificates) result in an endless recursion.
+		if slices.ContainsFunc(chain, candidate.Equal) {
 			continue
 		} else if isIssuerOf(child, candidate) {
 			return buildChain(append(chain, candidate), issuerCandidates)
